@@ -1018,8 +1018,123 @@ def validate_qsub(ctx: Ctx):
         circ = Evaluator(QURIPartsEvaluatorHooks()).run(compile_sub(b.build(), AllBasicSet))
         return circ
 
-    for it in range(ctx.n(300, 3000)):
-        s, o = term(rng.choice([0, 1, 1, 2, 2, 3]), 3) if it else ("Identity", std.Identity)
+    # --- structured user sub-routines: the generic resolver (reverse the order, wrap what is not self-inverse) is only
+    # exercised faithfully by bodies drawn from EVERY kind of sub-vocabulary: only self-inverse ops, a single kind of op,
+    # a self-inverse body with one non-self-inverse op at each position, only non-self-inverse ops; lengths 1..5 with
+    # non-commuting neighbours; alone, nested in other sub-routines, under Controlled / MultiControlled / Inverse
+    DN = {"Toffoli": "TOFFOLI"}
+    user_si = {}
+
+    def user_self_inverse(nm):
+        """user ops DECLARED self_inverse (and really so), resolved through their own registered sub"""
+        if nm not in user_si:
+            body = {"USwap": (2, [("CNOT", (0, 1)), ("CNOT", (1, 0)), ("CNOT", (0, 1))]), "UHZH": (1, [("H", (0,)), ("Z", (0,)), ("H", (0,))])}[nm]
+            b = SubBuilder(body[0])
+            for g, qs in body[1]:
+                b.add_op(getattr(std, g), tuple(b.qubits[q] for q in qs))
+            counter[0] += 1
+            o = Op(Ident(ns, f"{nm}{counter[0]}"), body[0], self_inverse=True)
+            default_repository().register_sub(o, b.build())
+            user_si[nm] = o
+        return user_si[nm]
+
+    SI1, SI2, SI3 = ["H", "X", "Y", "Z", "UHZH"], ["CNOT", "CZ", "SWAP", "USwap"], ["Toffoli"]
+    NSI1 = ["S", "Sdag", "SqrtX", "SqrtXdag", "SqrtY", "SqrtYdag", "T", "Tdag", "RX", "RY", "RZ", "Phase"]
+
+    def leaf(nm):
+        """(text, op, local matrix or None)"""
+        if nm in ("USwap", "UHZH"):
+            return nm, user_self_inverse(nm), dense.local_matrix("SWAP") if nm == "USwap" else dense.ONE["X"]
+        if nm in ("RX", "RY", "RZ", "Phase"):
+            a = float(rng.choice([c01.nongrid_angle(rng), rng.uniform(-7, 7), 1.0]))
+            m = np.diag([1, np.exp(1j * a)]) if nm == "Phase" else dense.local_matrix(nm, (a,))
+            return f"{nm}({a!r})", getattr(std, nm)(a), m
+        return nm, getattr(std, nm), dense.local_matrix(DN.get(nm, nm))
+
+    def structured_body(nq):
+        mode = rng.choice(["self-inverse-only", "self-inverse-only", "single-kind", "one-non-self-inverse", "one-non-self-inverse", "non-self-inverse-only", "any-subset"])
+        si = SI1 + (SI2 if nq >= 2 else []) + (SI3 if nq >= 3 else [])
+        L = rng.randint(1, 5)
+        if mode == "self-inverse-only":
+            vocab = rng.sample(si, rng.randint(1, min(3, len(si)))) if rng.random() < 0.5 else si
+            names = [rng.choice(vocab) for _ in range(L)]
+        elif mode == "single-kind":
+            names = [rng.choice(si + NSI1)] * L
+        elif mode == "one-non-self-inverse":
+            names = [rng.choice(si) for _ in range(L)]
+            names[rng.randrange(L)] = rng.choice(NSI1)
+        elif mode == "non-self-inverse-only":
+            names = [rng.choice(NSI1) for _ in range(L)]
+        else:
+            vocab = rng.sample(si + NSI1, rng.randint(1, 3))
+            names = [rng.choice(vocab) for _ in range(L)]
+        body, prev = [], None
+        for nm in names:
+            best = None
+            for _ in range(12):  # prefer a placement that does not commute with the previous op
+                t, o, m = leaf(nm)
+                qs = rng.sample(range(nq), o.qubit_count)
+                full = dense.embed(nq, qs, m)
+                best = (t, o, qs, full)
+                if prev is None or np.max(np.abs(full @ prev - prev @ full)) > 1e-6:
+                    break
+            body.append(best)
+            prev = best[3]
+        return mode, body
+
+    def structured(maxq):
+        nq = rng.randint(1, maxq)
+        mode, body = structured_body(nq)
+        b = SubBuilder(nq)
+        for t, o, qs, _ in body:
+            b.add_op(o, tuple(b.qubits[q] for q in qs))
+        counter[0] += 1
+        f = Op(Ident(ns, f"F{counter[0]}"), nq)
+        default_repository().register_sub(f, b.build())
+        txt = f"Sub[{nq}: " + "; ".join(f"{t}@{qs}" for t, _, qs, _ in body) + "]"
+        w = rng.choice(["plain", "plain", "nested", "nested-only", "controlled", "multicontrolled", "inverse", "controlled-nested"])
+        if w in ("nested", "nested-only", "controlled-nested"):
+            # F as a constituent of another sub-routine (its own flag is not self_inverse, so the outer inverse wraps it)
+            b2 = SubBuilder(nq)
+            parts = []
+            if w != "nested-only":
+                t0, o0, _ = leaf(rng.choice(SI1 + NSI1))
+                q0 = rng.randrange(nq)
+                b2.add_op(o0, (b2.qubits[q0],))
+                parts.append(f"{t0}@[{q0}]")
+            perm = rng.sample(range(nq), nq)
+            b2.add_op(f, tuple(b2.qubits[q] for q in perm))
+            parts.append(f"{txt}@{perm}")
+            if w == "nested" and rng.random() < 0.5:
+                t1, o1, _ = leaf(rng.choice(SI1))
+                q1 = rng.randrange(nq)
+                b2.add_op(o1, (b2.qubits[q1],))
+                parts.append(f"{t1}@[{q1}]")
+            counter[0] += 1
+            g = Op(Ident(ns, f"G{counter[0]}"), nq)
+            default_repository().register_sub(g, b2.build())
+            txt, f = f"Sub[{nq}: " + "; ".join(parts) + "]", g
+            if w == "controlled-nested":
+                txt, f = f"Controlled({txt})", std.Controlled(f)
+        elif w == "controlled":
+            txt, f = f"Controlled({txt})", std.Controlled(f)
+        elif w == "multicontrolled":
+            bits = rng.randint(1, 2)
+            val = rng.randrange(1 << bits)
+            txt, f = f"MultiControlled({txt},{bits},{val})", std.MultiControlled(f, bits, val)
+        elif w == "inverse":
+            txt, f = f"Inverse({txt})", std.Inverse(f)
+        ctx.count("qsub_structured", mode)
+        ctx.count("qsub_structured_wrapper", w)
+        return txt, f
+
+    n_random = ctx.n(300, 3000)
+    n_struct = ctx.n(350, 3500)
+    for it in range(n_random + n_struct):
+        if it >= n_random:
+            s, o = structured(3 if rng.random() < 0.8 else 2)
+        else:
+            s, o = term(rng.choice([0, 1, 1, 2, 2, 3]), 3) if it else ("Identity", std.Identity)
         nq = o.qubit_count
         order = rng.choice(["op;inv", "inv;op"])
         ctx.evaluations += 1
